@@ -1,5 +1,6 @@
 //! Runtime-monitoring harness for scratchstack-aws-signature (see /verif/DESIGN.md).
 pub mod calib;
+pub mod defect;
 pub mod diag;
 pub mod exec;
 pub mod gen;
